@@ -82,7 +82,8 @@ R_REPS = ['*', '+', '?', '{2}', '{1,2}', '{0,2}', '{2,}', '{0}', '{1}', '{0,1}',
 R_TWO_INV = ['([^a]|[^b])x', '[^ab]*[^bc]', '(.|[^a])b', '[^a]?[^b]', r'(\W|[^a])+', r'(\D|\S)x', r'([^a]|\W)([^b]|\D)', '(.|a)*b', r'[^a]*\S',
              r'(\Da|\Sb)', '([^ab]|[^cd])+e', r'[^\d]*[^\w]', '(a|[^a])(b|[^b])', r'(\S|\s)x', '.*[^a]', r'([^a]b|[^b]a)+', r'\W?\D?\S', '[^a]{1,2}[^b]']
 B_ATOMS = ['61', '62', '00', 'ff', '80', '7f', '[10-15]', '[^61]', '[^00 ff]', '.', '[61-63 80-ff]', '[^80-ff]', '0a', '[00-7f]', '[^61 62]']
-B_TWO_INV = ['([^61]|[^62]) 00', '[^61 62]* [^62 63]', '(.|[^00]) ff', '[^00]? [^ff]', '([^80-ff]|[^00-7f])+ 61', '.* [^ff]']
+B_TWO_INV = ['([^61]|[^62]) 00', '[^61 62]* [^62 63]', '(.|[^00]) ff', '[^00]? [^ff]', '([^80-ff]|[^00-7f])+ 61', '.* [^ff]',
+             '([^80-ff] 61|[^00-7f] 62)+', '([^40-ff] 61|[^00-3f 80-ff] 62|[^00-7f] 63)+ 00', '([^01-ff]|[^00]) [^80-ff]']
 
 
 def _rgen(r, depth, atoms, binary):
